@@ -705,6 +705,16 @@ def oracle(sq, impl_lines):
     return probs
 
 
+def _op_index_of_line(sq, nlines):
+    """index of the op during which the output stopped after nlines complete lines"""
+    n = 0
+    for k, op in enumerate(sq.ops):
+        n += NLINES[op[0]]
+        if n > nlines:
+            return k
+    return len(sq.ops) - 1
+
+
 def _nsig(t):
     """number of sigma strings at the end of a p/e/q op"""
     if t[0] == "p":
@@ -852,14 +862,29 @@ def py_infix_uniform(toks, vals):
 
 # ---------------------------------------------------------------------------
 
-def run_harness_seqs(ctx, exe, seqs):
-    """run all sequences through the C++ harness; returns per-sequence line lists
-    (None where the process crashed on that sequence)"""
+WATCHDOG_S = 8        # per sequence / token case, inside the harness (alarm)
+MAX_ABNORMAL = 3      # stop running the implementation after this many hangs + crashes
+
+
+def run_harness_seqs(ctx, exe, seqs, total_budget):
+    """run all sequences through the C++ harness; returns per-sequence line lists,
+    ("crash"|"hang", rc, partial output) where the process died / the watchdog fired on
+    that sequence, None where the sequence was not run (time budget used up, or too many
+    abnormal ends already)."""
+    import time
     results = [None] * len(seqs)
     start = 0
+    abnormal = 0
+    deadline = time.time() + total_budget
     while start < len(seqs):
+        left = deadline - time.time()
+        if left <= 1 or abnormal >= MAX_ABNORMAL:
+            ctx.count("sequences-not-run-on-implementation", len(seqs) - start)
+            ctx.notes.append("implementation harness stopped early (%s): %d sequences not run"
+                             % ("time budget" if left <= 1 else "%d hangs/crashes" % abnormal, len(seqs) - start))
+            break
         inp = "".join(s.text() + "\n" for s in seqs[start:])
-        rc, out = ctx.run_harness(exe, ["seq"], input=inp, timeout=1200)
+        rc, out = ctx.run_harness(exe, ["seq", str(WATCHDOG_S)], input=inp, timeout=left + WATCHDOG_S + 5)
         cur = []
         i = start
         for l in out.splitlines():
@@ -873,8 +898,16 @@ def run_harness_seqs(ctx, exe, seqs):
                 cur.append(l)
         if i >= len(seqs):
             break
-        # sequence i crashed the harness (or printed garbage): record, continue after it
-        results[i] = ("crash", rc, cur)
+        if rc == 124 and not (cur and cur[-1] == "! hang"):
+            # outer time limit: sequence i was merely in progress, not necessarily at fault
+            continue_from = i
+            deadline = time.time()
+            start = continue_from
+            continue
+        # sequence i ended the process: watchdog (marker line) or crash
+        hung = bool(cur) and cur[-1] == "! hang"
+        results[i] = ("hang" if hung else "crash", rc, [l for l in cur if l and l != "! hang"])
+        abnormal += 1
         start = i + 1
     return results
 
@@ -978,7 +1011,7 @@ def run(ctx):
     ctx.log("generated %d sequences, %d ops" % (len(seqs), sum(len(s.ops) for s in seqs)))
 
     # ---- the implementation ------------------------------------------------
-    results = run_harness_seqs(ctx, exe, seqs)
+    results = run_harness_seqs(ctx, exe, seqs, 90 if quick else 900)
     ndis = 0
     nviol = 0
     for sq, impl in zip(seqs, results):
@@ -988,6 +1021,14 @@ def run(ctx):
             ctx.count("op:" + op.split()[0])
             ctx.case((sq.text(), k), nontrivial=True)
         ctx.count("gen:" + sq.tag)
+        if impl is None:
+            continue          # not run on the implementation (see notes)
+        if isinstance(impl, tuple) and impl[0] == "hang":
+            ctx.violation("hang", "the real code does not terminate (watchdog %d s) on a sequence the model finishes" % WATCHDOG_S,
+                          dict(replay, output_before_hang=impl[2][-4:],
+                               failing_op_index=_op_index_of_line(sq, len(impl[2]))))
+            nviol += 1
+            continue
         if isinstance(impl, tuple):
             forced = getattr(sq, "model_stopped", None) is not None
             ctx.violation("crash", "the implementation crashed (rc=%s) on a sequence the model accepts" % impl[1]
@@ -1084,11 +1125,17 @@ def run(ctx):
     # the implementation only sees cases on which the model meets no assertion site
     keep = [i for i, l in enumerate(mlines) if not l.startswith("!")]
     inp2 = "".join("%s %s %s\n" % (tok_cases[i][0], tok_cases[i][1], " ".join(tok_cases[i][2])) for i in keep)
-    rc, cout = ctx.run_harness(exe, ["tok"], input=inp2, timeout=600)
-    clines = cout.splitlines()
+    rc, cout = ctx.run_harness(exe, ["tok", str(WATCHDOG_S)], input=inp2, timeout=120 if quick else 600)
+    clines = [l for l in cout.splitlines() if l != ""]
+    hung = bool(clines) and clines[-1] == "! hang"
+    if hung:
+        clines = clines[:-1]
     if rc != 0 or len(clines) != len(keep):
-        ctx.violation("crash", "token harness failed rc=%d (%d of %d lines)" % (rc, len(clines), len(keep)),
-                      {"first_case": inp2.splitlines()[len(clines)] if len(clines) < len(keep) else None})
+        ncomplete = min(len(clines), len(keep) - 1)
+        ctx.violation("hang" if (hung or rc == 124) else "crash",
+                      "token-vector harness %s rc=%d after %d of %d cases"
+                      % ("did not terminate on a case" if (hung or rc == 124) else "failed", rc, len(clines), len(keep)),
+                      {"case": inp2.splitlines()[ncomplete], "how": "echo '<case>' | /verif/_work/C10/csg tok"})
     else:
         nbad = 0
         for i, cl in zip(keep, clines):
